@@ -144,6 +144,11 @@ func (c *FnCtx) applyContract(fr *frame, st *State, con *Contract, ca callArgs, 
 		case kMap:
 			c.assume(st, or(eq(v.S, "0"), and(sx(">=", v.S, pre.wm), sx("<", v.S, st.wm))))
 		case kIface:
+			if con.External {
+				// assumed contract of a constructor outside /repo: the interface value itself is new
+				c.assume(st, or(eq(v.S, "0"), and(sx(">=", v.S, pre.wm), sx("<", v.S, st.wm))))
+				break
+			}
 			c.assume(st, or(eq(v.S, "0"), and(sx(">=", v.S, pre.wm), sx("<", v.S, st.wm)), and(sx(">=", sx("unbox", v.S), pre.wm), sx("<", sx("unbox", v.S), st.wm))))
 		}
 	}
